@@ -33,6 +33,8 @@ pub fn gen_spec(rng: &mut Rng) -> OptSpec {
     o.adjacent_args = false;
     o.cmd_depth = 1;
     o.max_named = 6;
+    // `fallback_to_usage`: usage instead of a failure on an empty line, never instead of a value
+    o.usage_fallback = true;
     o.types = vec![Ty::Str, Ty::U32, Ty::Os, Ty::Str];
     let mut p = Pool::new(rng, o);
     p.level(1)
@@ -97,6 +99,21 @@ fn valid_state(
         m.insert(name.clone(), v);
     }
     m
+}
+
+/// `fallback_to_usage`: a level that is given nothing and fails prints its usage on stdout
+fn usage_by_request(spec: &OptSpec, argv: &[Vec<u8>]) -> bool {
+    if argv.is_empty() {
+        return spec.fallback_to_usage;
+    }
+    let mut cmds = Vec::new();
+    spec.root.level_cmds(&mut cmds);
+    cmds.iter().any(|c| {
+        c.opts.fallback_to_usage
+            && argv
+                .last()
+                .map_or(false, |l| c.names.iter().any(|n| n.as_bytes() == l.as_slice()))
+    })
 }
 
 fn env_json(state: &BTreeMap<String, Vec<u8>>) -> J {
@@ -407,12 +424,57 @@ pub fn run_case(case: &mut Case) {
             }
         }
 
-        // (B) an invalid value in the variable of an item that is absent from the line
         let root_items = {
             let mut v = Vec::new();
             b.spec.root.level_items(&mut v);
             v
         };
+        // (B') the variable of an item that IS on the line has no say, not even an invalid one:
+        // the outcome is the one observed with this state
+        if ok {
+            let cands: Vec<&(String, Id, Option<Ty>)> = vars
+                .iter()
+                .filter(|(_, id, ty)| {
+                    matches!(ty, Some(Ty::U32 | Ty::I64 | Ty::Str))
+                        && on_line.contains(id)
+                        && root_items.iter().any(|i| i.id == *id)
+                })
+                .collect();
+            if !cands.is_empty() {
+                let (name, id, ty) = (*rng.pick(&cands)).clone();
+                let bad: Vec<u8> = match ty {
+                    Some(Ty::Str) => b"v\xff".to_vec(),
+                    _ => b"12x".to_vec(),
+                };
+                let mut st = state.clone();
+                st.insert(name.clone(), bad.clone());
+                apply_env(&vars, &st);
+                let (o2, _) =
+                    b.run_opts(case, &line.argv, "invalid-variable-of-item-on-the-line", &named, 24);
+                if o2 != out && !matches!(o2, Outcome::Panic(_) | Outcome::FuelExhausted) {
+                    case.rep.violation(
+                        &format!("variable-of-present-item-influences:{}", o2.class()),
+                        "precedence",
+                        case.index,
+                        b.detail(
+                            &line.argv,
+                            "invalid-variable-of-item-on-the-line",
+                            &format!(
+                                "the outcome without it ({}={:?} set, item {} is on the line): {}",
+                                name,
+                                show_bytes(&bad),
+                                id,
+                                out.show()
+                            ),
+                            &o2,
+                        )
+                        .set("environment", env_json(&st)),
+                    );
+                }
+                apply_env(&vars, &state);
+            }
+        }
+        // (B) an invalid value in the variable of an item that is absent from the line
         let cands: Vec<&(String, Id, Option<Ty>)> = vars
             .iter()
             .filter(|(n, id, ty)| {
@@ -449,6 +511,9 @@ pub fn run_case(case: &mut Case) {
             match &out {
                 Outcome::Stderr { text } if text.contains(&msg) => {}
                 Outcome::Panic(_) | Outcome::FuelExhausted => {}
+                Outcome::Stdout { .. } if usage_by_request(&b.spec, &line.argv) => {
+                    case.rep.count("usage-printed-by-request");
+                }
                 other => case.rep.violation(
                     &format!("invalid-variable-value:{}", other.class()),
                     "validation",
@@ -510,6 +575,9 @@ pub fn run_case(case: &mut Case) {
             match &out {
                 Outcome::Stderr { text } if names_it(text) => {}
                 Outcome::Panic(_) | Outcome::FuelExhausted => {}
+                Outcome::Stdout { .. } if usage_by_request(&b.spec, &mline.argv) => {
+                    case.rep.count("usage-printed-by-request");
+                }
                 other => case.rep.violation(
                     &format!("absent-required-item:{}", other.class()),
                     "both-absent",
